@@ -194,8 +194,8 @@ func c13GenMem(t *rapid.T, label string) c13Qty {
 type c13Cont struct {
 	Name    string
 	Sidecar bool                                      // init container with restartPolicy=Always
-	Req     map[corev1.ResourceName]c13Qty `json:"-"` // exact model
-	Lim     map[corev1.ResourceName]c13Qty `json:"-"`
+	Req     map[corev1.ResourceName]c13Qty // exact model
+	Lim     map[corev1.ResourceName]c13Qty
 }
 
 type c13Pod struct {
@@ -303,6 +303,9 @@ func (p *c13Pod) render() map[string]any {
 }
 
 func (p *c13Pod) String() string {
+	if p == nil {
+		return "<none>"
+	}
 	b, _ := json.Marshal(p.render())
 	return string(b)
 }
@@ -738,7 +741,7 @@ func TestVerifC13Validating(t *testing.T) {
 		}
 		// non-trivial: a rule is decisive — exactly one rule broken, or an admitted pod of a constrained QoS class / with batch resources
 		if (len(v.Failed) == 1 && len(v.Extra) == 0) || (len(v.Failed) == 0 && len(v.Extra) == 0 && (constrained || newP.podRequest(c13BatchCPU).Sign() != 0 || newP.podRequest(c13BatchMem).Sign() != 0)) {
-			c.NonTrivial(newP.String(), fmt.Sprint(oldP), skipGate)
+			c.NonTrivial(newP.String(), oldP.String(), skipGate)
 		}
 		if c.WantSample() {
 			s := map[string]any{"op": string(op), "new": newP.render(), "admitted": admitted, "reason": reason, "brokenRules": v.Failed, "extraRules": v.Extra,
